@@ -251,7 +251,7 @@ def body_input_stream(I, X, cl_kind="text"):
     return ok, obs
 
 
-def body_urlencoded_limits(I, X, n=2, with_cl=False, use_mfms=False):
+def body_urlencoded_limits(I, X, n=2, with_cl=False, use_mfms=False, wide=False):
     """urlencoded forms (FormDataParser.parse_from_environ -> get_input_stream ->
     _parse_urlencoded): limits are pure guards -- under max_content_length (server-terminated
     stream, with or without CONTENT_LENGTH) or max_form_memory_size the parse either raises
@@ -260,11 +260,14 @@ def body_urlencoded_limits(I, X, n=2, with_cl=False, use_mfms=False):
     from werkzeug.exceptions import RequestEntityTooLarge
     from werkzeug.formparser import FormDataParser
 
-    v = X.str("v", n, minlen=n, maxcp=0x7A)
-    X.assume(pall_in(v, [(0x30, 0x39), (0x61, 0x7A)]))
-    body = pconcat("k=", v, "&z=1").encode("ascii")
-    total = 2 + n + 4
-    M = X.int("M", 0, total + 2)
+    # value characters: ASCII letters / digits or raw two-byte UTF-8 text (limits count BYTES)
+    v = X.str("v", n, minlen=n, maxcp=0x7FF)
+    X.assume(pall_in(v, [(0xA1, 0x7FF)] if wide else [(0x30, 0x39), (0x61, 0x7A)]))
+    body = pconcat("k=", v, "&z=1").encode("utf-8")
+    total = 2 + 4
+    for i in range(n):
+        total += 1 if bool(pall_in(v[i:i + 1], [(0, 0x7F)])) else 2
+    M = X.int("M", total - 2, total + 1) if wide else X.int("M", 0, total + 2)
 
     def environ():
         e = {"wsgi.input": Stream(body), "wsgi.input_terminated": True, "CONTENT_TYPE": "application/x-www-form-urlencoded", "REQUEST_METHOD": "POST"}
@@ -319,7 +322,11 @@ def obligations(tier, seed):
             for use_mfms in (False, True):
                 extra.append({"name": f"urlencoded_limits[n={n},cl={with_cl},mfms={use_mfms}]", "body": "body_urlencoded_limits",
                               "params": {"n": n, "with_cl": with_cl, "use_mfms": use_mfms},
-                              "opts": {"budget_s": 900, "ctx": {"max_cp": 0x7F, "bv_ints": True}}})
+                              "opts": {"budget_s": 900, "ctx": {"max_cp": 0x7FF, "bv_ints": True}}})
+    for n in ((1,) if tier == "quick" else (1, 2)):
+        extra.append({"name": f"urlencoded_limits[n={n},cl=True,mfms=True,two-byte-text]", "body": "body_urlencoded_limits",
+                      "params": {"n": n, "with_cl": True, "use_mfms": True, "wide": True},
+                      "opts": {"budget_s": 900, "ctx": {"max_cp": 0x7FF, "bv_ints": True}}})
     out = []
     quick = tier == "quick"
     shapes = [("field",), ("field", "field"), ("field", "file"), ("file", "field", "field")]
